@@ -114,7 +114,10 @@ CLAIMED = {
              'justified by its operands; the edge predicate, the '
              'self-fulfilling-SCC filter and the answer filter are '
              'summarised and compared with their specification on all '
-             'small instances. Two genuine defects found and repaired.',
+             'small instances; the SCC filter applies no in-place operator '
+             'to a tableau atom; an atomic proposition looked up among the '
+             'label names is found iff it prints as its name. Two genuine '
+             'defects found and repaired.',
         ref='3-C02',
         note='trusted: sort-key invariant of the atom builder; graph '
              'primitives as documented; formulas compare by structure '
@@ -199,7 +202,9 @@ CLAIMED = {
              'children in order; callbacks exist; printer and grammar share '
              'one symbol table; the printers read as grammars over '
              'canonical tokens are LR(1), so printing is injective (CTL* / '
-             'LTL / PL notation and CTL\'s own notation).',
+             'LTL / PL notation and CTL\'s own notation); every derivation '
+             'value is a formula of the parser\'s own logic (grammar typing); '
+             'no transformer fills a class-body container per instance.',
         ref='3-C09',
         note='trusted: lark expands EBNF faithfully, its contextual lexer '
              'splits printer output at the blanks/parentheses the printer '
@@ -273,7 +278,9 @@ CLAIMED = {
              'pop loop compares discovery times; a non-root is pushed; the '
              'argument is not modified; the yielded list is not used by the '
              'generator after the yield (use-after analysis); the DiGraph '
-             'mutators keep every edge end registered as a node and nodes '
+             'mutators keep every edge end registered as a node, graphs '
+             'derived from G (clone / reversed / subgraph, Kripke.clone) '
+             'share no successor set with it, and nodes '
              'are never ordered or sorted in graph.py. Breaking any of them gives a wrong '
              'partition on some graph and insertion order. NOT decided: '
              'that these conditions suffice (partition and mutual '
